@@ -23,6 +23,10 @@ type shimModel struct {
 	lockedK  int64                   // ... whose value "locked" is the constant Lock stores
 	flagVals map[int64]bool          // ... and these are all the values it can hold (zero value and every stored constant)
 	owners   map[string]*types.Named // the struct type declaring each role field (the server, or a helper type it holds)
+	modeEnum bool                    // the mode flag is an integer state set once by the constructor
+	modeOnK  int64                   // ... whose value "no-upstream mode on" is this constant
+	modeVals map[int64]bool
+	modeSrc  *ssa.Parameter // the constructor's bool parameter the mode is derived from (enum form)
 	fCerts   string                  // map[hashcode]*certificate
 	fCache   string                  // map[hashcode]struct{}
 	fAgent   string                  // agent.ExtendedAgent
@@ -214,6 +218,72 @@ func resolveShim(w *World) *shimModel {
 	for _, b := range bools {
 		if b != m.fLocked {
 			m.fNoUp = b
+		}
+	}
+	if m.fNoUp == "" {
+		// ... or a small integer state written once, by the constructor, from a value decided by one of its bool
+		// parameters: the constant it takes when that parameter is true means "mode on"
+		for _, fat := range all {
+			f := fat.f
+			if f.Name() == m.fLocked {
+				continue
+			}
+			if bt, ok := f.Type().Underlying().(*types.Basic); !ok || bt.Info()&types.IsInteger == 0 {
+				continue
+			}
+			var st *ssa.Store
+			n := 0
+			var ctor *ssa.Function
+			for _, a := range w.FieldAccesses(fat.owner, f.Name()) {
+				switch a.Kind {
+				case "write":
+					st, _ = a.Instr.(*ssa.Store)
+					ctor = a.Fn
+					n++
+				case "addr", "addrcall":
+					n += 2
+				}
+			}
+			if n != 1 || st == nil || ctor == nil || ctor.Signature.Recv() != nil {
+				continue
+			}
+			old := w.focus
+			w.Focus(ctor)
+			byPol := map[bool]int64{}
+			var src *ssa.Parameter
+			okAll := true
+			for _, lf := range w.Leaves(st.Val, st) {
+				k, isK := intConst(lf.Val)
+				if !isK {
+					okAll = false
+					break
+				}
+				found := false
+				for l := range lf.Facts {
+					if p, isParam := w.canon(ctor, l.V).(*ssa.Parameter); isParam && isBoolType(p.Type()) && (p.Parent() == ctor || w.resolveUp(ctor, p) != ssa.Value(p)) {
+						rp := p
+						if p.Parent() != ctor {
+							rp, _ = w.resolveUp(ctor, p).(*ssa.Parameter)
+						}
+						if rp == nil || rp.Parent() != ctor || (src != nil && src != rp) {
+							continue
+						}
+						src = rp
+						byPol[l.Pol] = k
+						found = true
+					}
+				}
+				if !found {
+					okAll = false
+				}
+			}
+			w.restoreFocus(old)
+			onK, hasOn := byPol[true]
+			offK, hasOff := byPol[false]
+			if okAll && hasOn && hasOff && onK != offK && src != nil {
+				m.fNoUp, m.modeEnum, m.modeOnK, m.modeSrc = f.Name(), true, onK, src
+				m.modeVals = map[int64]bool{onK: true, offK: true}
+			}
 		}
 	}
 	for role, v := range map[string]string{"lock flag field": m.fLocked, "certificate table field": m.fCerts, "upstream cache field": m.fCache,
@@ -420,6 +490,42 @@ func (m *shimModel) lockedKnown(fn *ssa.Function, b *ssa.BasicBlock) (val bool, 
 		}
 	}
 	return false, false
+}
+
+// modeLit: literal l decides the no-upstream mode; on is its value.
+func (m *shimModel) modeLit(l Lit) (on bool, ok bool) {
+	if !m.modeEnum {
+		if m.isLoadOfField(l.V, m.fNoUp) {
+			return l.Pol, true
+		}
+		return false, false
+	}
+	bin, isBin := l.V.(*ssa.BinOp)
+	if !isBin || (bin.Op != token.EQL && bin.Op != token.NEQ) {
+		return false, false
+	}
+	x, y := bin.X, bin.Y
+	if _, isK := intConst(x); isK {
+		x, y = y, x
+	}
+	k, isK := intConst(y)
+	if !isK || !m.isLoadOfField(strip(x), m.fNoUp) {
+		return false, false
+	}
+	eq := l.Pol == (bin.Op == token.EQL)
+	switch {
+	case k == m.modeOnK:
+		return eq, true
+	case eq:
+		return false, true
+	default:
+		for v := range m.modeVals {
+			if v != k && v != m.modeOnK {
+				return false, false
+			}
+		}
+		return true, true
+	}
 }
 
 // flagConst: the value v stored into the lock flag, as locked / not locked.
